@@ -350,6 +350,7 @@ def run(tier, t0):
                 fine.append((root, step, depth, alpha))
     # interleave heavy (depth 3) and light items so that the pool balances
     fine.sort(key=lambda it: json.dumps(it[1], sort_keys=True))
+    fine.append("accessor_postdecoration")
     tot = core.merge(core.pmap(work_fine, fine))
     return core.finish(
         PROP, tier, tot, t0,
@@ -365,15 +366,129 @@ def run(tier, t0):
              "all earlier definitions are observed (names in __invariants__/_on_call__/_on_setattr__ and whether the class owns "
              "the list, checker lists of m and p, own members; probe construct/m/p/setattr under all-true and each-single-falsy "
              "tables incl. the newly introduced conditions). Histories Python or icontract reject at the last step are checked "
-             "for having changed nothing; non-trivial = every valid history".format(plans),
+             "for having changed nothing; plus the accessors of a property (re-defined / setter extended / getter extended in a sub-class, 3 x 3 styles of "
+             "target and sibling) decorated once more after the fact with a pre- or postcondition: base and sibling keep lists and verdicts; "
+             "non-trivial = every valid history".format(plans),
         assumptions=["subclassing without the DBC base is documented as leaking and excluded",
                      "no state merging: every history is executed (states = histories)"],
         bounds={"plans": [list(p) for p in plans]},
     )
 
+# ---------------------------------------------------------------------------------------------
+# property accessors decorated once more after the classes exist: the base and the siblings must stay as they were
+
+ACC_SRC = '''\
+import icontract
+T = {}
+def _t(n):
+    return T.get(n, True)
+def g_B(self):
+    return _t("g_B")
+def s_B(self, value):
+    return _t("s_B")
+def q_B(self, result):
+    return _t("q_B")
+def new_pre(self):
+    return _t("new_pre")
+def new_pre_set(self, value):
+    return _t("new_pre_set")
+def new_post(self, result):
+    return _t("new_post")
+class Base(icontract.DBC):
+    @property
+    @icontract.require(g_B)
+    @icontract.ensure(q_B)
+    def p(self):
+        return 1
+    @p.setter
+    @icontract.require(s_B)
+    def p(self, value):
+        pass
+{subs}
+'''
+ACC_STYLES = {
+    "override": "class {0}(Base):\n    @property\n    def p(self):\n        return 2\n    @p.setter\n    def p(self, value):\n        pass\n",
+    "extend_setter": "class {0}(Base):\n    @Base.p.setter\n    def p(self, value):\n        pass\n",
+    "extend_getter": "class {0}(Base):\n    @Base.p.getter\n    def p(self):\n        return 2\n",
+}
+ACC_DECOS = {
+    ("fset", "pre"): "icontract.require(new_pre_set)(vars(Sub)['p'].fset)",
+    ("fget", "pre"): "icontract.require(new_pre)(vars(Sub)['p'].fget)",
+    ("fget", "post"): "icontract.ensure(new_post)(vars(Sub)['p'].fget)",
+}
+ACC_NAMES = ["g_B", "s_B", "q_B", "new_pre", "new_pre_set", "new_post"]
+
+
+def check_accessor_postdecoration(acc):
+    import icontract
+
+    def observe(ns, names):
+        out = {}
+        for cname in names:
+            cls = ns[cname]
+            prop = None
+            for k in cls.__mro__:
+                if "p" in vars(k):
+                    prop = vars(k)["p"]
+                    break
+            lists = {}
+            for accname in ("fget", "fset"):
+                chk = icontract._checkers.find_checker(getattr(prop, accname))
+                lists[accname] = None if chk is None else (
+                    [[c.condition.__name__ for c in grp] for grp in chk.__preconditions__], [c.condition.__name__ for c in chk.__postconditions__])
+            probes = []
+            for falsy in [None] + ACC_NAMES:
+                ns["T"].clear()
+                if falsy:
+                    ns["T"][falsy] = False
+                res = []
+                o = cls()
+                for label, fn in (("get", lambda: o.p), ("set", lambda: setattr(o, "p", 1))):
+                    try:
+                        fn()
+                        res.append(label + ":ok")
+                    except Exception as e:
+                        res.append(label + ":" + type(e).__name__)
+                probes.append((falsy, tuple(res)))
+            ns["T"].clear()
+            out[cname] = (lists, probes)
+        return out
+
+    for style, tmpl in sorted(ACC_STYLES.items()):
+        for sib_style, sib_tmpl in sorted(ACC_STYLES.items()):
+            for (accname, kind), deco in sorted(ACC_DECOS.items()):
+                if (style == "extend_setter" and accname != "fset") or (style == "extend_getter" and accname != "fget"):
+                    continue  # that accessor of Sub IS the function of the base: decorating it decorates the base, legitimately
+                src = ACC_SRC.replace("{subs}", tmpl.format("Sub") + sib_tmpl.format("Sib"))
+                ns = core.load_source(src, "c17a")
+                try:
+                    before = observe(ns, ["Base", "Sib"])
+                    applied = "ok"
+                    try:
+                        exec(compile(deco, ns["__file__"] + "#post", "eval"), ns)
+                    except Exception as e:
+                        applied = type(e).__name__
+                    after = observe(ns, ["Base", "Sib"])
+                    acc.case(("accessor_postdecoration", style, sib_style, accname, kind), True, len(ACC_NAMES) * 4, applied)
+                    for cname in ("Base", "Sib"):
+                        if before[cname] != after[cname]:
+                            what = "introspection_lists_changed" if before[cname][0] != after[cname][0] else "verdicts_changed"
+                            acc.violation(core.Violation(
+                                PROP, what, {"family": "accessor_postdecoration", "style": style, "sibling_style": sib_style, "accessor": accname, "kind": kind, "changed": cname},
+                                "decorating {} of the property of Sub ({}) once more with a {}condition changed {} ({}): before {} after {}".format(
+                                    accname, style, kind, cname, "the base" if cname == "Base" else "a sibling, " + sib_style, before[cname], after[cname]),
+                                spec={"accessor_postdecoration": [style, sib_style, accname, kind]}, script=src + "\n" + deco + "\n"))
+                            break
+                finally:
+                    core.unload_source(ns)
+    acc.sample({"family": "accessor_postdecoration", "styles": sorted(ACC_STYLES), "decorations": [list(k) for k in sorted(ACC_DECOS)]}, cap=1)
+
 
 def work_fine(args):
     acc = core.Acc()
+    if any(a == "accessor_postdecoration" for a in args):
+        check_accessor_postdecoration(acc)
+        args = [a for a in args if a != "accessor_postdecoration"]
     for root, first, depth, tier in args:
         h1 = [root, first]
         valid = check_history(h1, acc, tier)
@@ -396,7 +511,10 @@ def work_fine(args):
 def replay(path):
     data = json.load(open(path))["spec"]
     acc = core.Acc()
-    check_history(data["history"], acc, "thorough")
+    if "accessor_postdecoration" in data:
+        check_accessor_postdecoration(acc)
+    else:
+        check_history(data["history"], acc, "thorough")
     for v in acc.violations[:5]:
         print("VIOLATION property={} replay={}".format(PROP, path))
         print(" ", v.symptom, v.detail[:600])
